@@ -149,7 +149,7 @@ func r171(c *Ctx, rule string) {
 						if st.Dir != types.RecvOnly {
 							continue
 						}
-						if call, isC := st.Chan.(*ssa.Call); isC && calleeName(call.Common()) == "time.After" {
+						if call, isC := stripConv(st.Chan).(*ssa.Call); isC && calleeName(call.Common()) == "time.After" {
 							if p, isP := resolve(call.Call.Args[0]).(*ssa.Parameter); isP && p.Parent() == f && typeString(p.Type()) == "time.Duration" && !inLoop(call.Block()) {
 								timerOK = true
 							}
